@@ -363,6 +363,13 @@ func (b *zvqServeWait) Counts() (int, [][2]int, error) {
 	return verifh.CondCounts(b.shim)
 }
 
+func (b *zvqServeWait) CondServer() interface{} {
+	if b.shim == nil {
+		return nil
+	}
+	return b.shim
+}
+
 func (b *zvqServeWait) Release() {
 	r := mrand.New(mrand.NewSource(1))
 	for c := 0; c < 40; c++ {
